@@ -75,8 +75,9 @@ namespace lang
         }
 
         constexpr fixed_vector(fixed_vector<value_type>&& v)
-        : capacity_(v.capacity_), data_(std::move(v.data_))
+        : size_(v.size_), capacity_(v.capacity_), data_(std::move(v.data_))
         {
+            v.size_ = 0;
         }
 
         constexpr fixed_vector operator=(const fixed_vector& v)
